@@ -11,7 +11,7 @@ def sh(cmd, cwd, t=900):
     p = subprocess.run(cmd, cwd=cwd, shell=True, env=env, stdout=subprocess.PIPE, stderr=subprocess.STDOUT, text=True, timeout=t)
     return p.returncode, p.stdout
 ran = []
-if not os.path.isdir(wt):
+if not os.path.isdir(wt) or not os.path.isdir(src):
     # re-run of a kept seed: confirmed earlier, the worktree is gone
     assert os.path.exists(dst + "/patch.diff"), "no such seed"
     src = None
